@@ -347,19 +347,17 @@ func buildCharClassSearchers(
 	// BranchDispatcher for anchored alternations with distinct first bytes
 	// Reference: https://github.com/coregx/coregex/issues/79
 	if strategy == UseBranchDispatch {
-		// Extract the alternation part (skip ^ anchor)
-		altPart := re
-		if re.Op == syntax.OpConcat && len(re.Sub) >= 2 {
-			// Skip start anchor, get the rest
-			for _, sub := range re.Sub[1:] {
-				if sub.Op == syntax.OpAlternate || sub.Op == syntax.OpCapture {
-					altPart = sub
-					break
-				}
-			}
+		// IsBranchDispatchPattern guarantees the shape \A(alternation): exactly the
+		// anchor followed by the (optionally captured) alternation, nothing else.
+		// The dispatcher is exact for that alternation (NewBranchDispatcher returns
+		// nil otherwise), so its answer needs no verification by another engine.
+		var altPart *syntax.Regexp
+		if re.Op == syntax.OpConcat && len(re.Sub) == 2 && re.Sub[0].Op == syntax.OpBeginText {
+			altPart = re.Sub[1]
 		}
 		result.branchDispatcher = nfa.NewBranchDispatcher(altPart)
-		if result.branchDispatcher == nil {
+		if result.branchDispatcher == nil || !result.branchDispatcher.IsExact() {
+			result.branchDispatcher = nil
 			// Fallback to BoundedBacktracker if dispatch not possible
 			result.finalStrategy = UseBoundedBacktracker
 			result.boundedBT = nfa.NewBoundedBacktracker(btNFA)
